@@ -10,6 +10,12 @@ NOTE = ("Trusted: rustc nightly's type-checked MIR (mir-opt-level=0, overflow ch
         "wrapper summaries; imprecise origins make a rule silent, never alarming.")
 
 CHECKS = {
+    "C09": dict(
+        text="Decides three of the four clauses statically: no stream window type occurs in any field, static, escaping "
+             "closure or leak call (=> nothing is held after work()); no CFG path reaches `return Ok(Again)` without any "
+             "possible stream or state effect; a WaitForStream verdict whose nearest controlling test is a plain "
+             "'window of self.G is short' names G. 'Consumes no more than offered' is a runtime guard (C01.R1).",
+        design="§4 C09", technique="type facts + effect-avoiding path search + guard/verdict agreement on MIR"),
     "C02": dict(
         text="Structural necessary conditions only: who-may-write on the stream's tag map (only commit adds, only consume "
              "removes, the read window mutates nothing) and commit stores a tag only behind tag.pos() < n. The modular "
